@@ -3,8 +3,19 @@ package main
 import (
 	"fmt"
 	"math/big"
+	"sort"
 	"strings"
+	"sync"
 )
+
+// structDecls: datatype declarations of all struct sorts named so far, emitted on demand by Render.
+var (
+	structDecls  = map[string]string{}
+	structDeclMu sync.Mutex
+)
+
+// builtinPreLines is the number of fixed preamble lines NewScript emits.
+const builtinPreLines = 8
 
 // Term is an SMT-LIB2 term with its sort (both as text).
 type Term struct {
@@ -288,14 +299,51 @@ func (s *Script) Assume(t Term) {
 func (s *Script) Render(prefix int, goal Term, getValues []string) string {
 	var sb strings.Builder
 	sb.WriteString("(set-option :produce-models true)\n(set-logic ALL)\n")
-	for _, l := range s.pre {
-		sb.WriteString(l)
-		sb.WriteByte('\n')
+	var rest strings.Builder
+	for i, l := range s.pre {
+		if i < builtinPreLines {
+			sb.WriteString(l)
+			sb.WriteByte('\n')
+			continue
+		}
+		rest.WriteString(l)
+		rest.WriteByte('\n')
 	}
 	for _, l := range s.body[:prefix] {
-		sb.WriteString(l)
+		rest.WriteString(l)
+		rest.WriteByte('\n')
+	}
+	// struct sorts mentioned anywhere, in dependency order
+	text := rest.String() + goal.S
+	structDeclMu.Lock()
+	names := make([]string, 0, len(structDecls))
+	for n := range structDecls {
+		names = append(names, n)
+	}
+	sort.Strings(names)
+	emitted := map[string]bool{}
+	var emit func(n string)
+	emit = func(n string) {
+		if emitted[n] {
+			return
+		}
+		emitted[n] = true
+		decl := structDecls[n]
+		for _, m := range names {
+			if m != n && strings.Contains(decl, m) {
+				emit(m)
+			}
+		}
+		sb.WriteString(decl)
 		sb.WriteByte('\n')
 	}
+	for _, n := range names {
+		if strings.Contains(text, n) {
+			emit(n)
+		}
+	}
+	structDeclMu.Unlock()
+	sb.WriteString(rest.String())
 	sb.WriteString("(assert " + goal.S + ")\n(check-sat)\n")
 	if len(getValues) > 0 {
 		sb.WriteString("(get-value (" + strings.Join(getValues, " ") + "))\n")
